@@ -43,7 +43,9 @@ EXHAUSTIVE = {"quick": False, "thorough": False}
 RULE = ("one helper invocation per case. Exhaustive core: every key/predicate pattern over {0,1}^n (n<=4 quick, n<=6 "
         "thorough) x every helper variant (amap, afilter fn/None, afilterfalse, asorted key/no key x reverse, amax/amin "
         "key/no key x single-iterable/varargs, asift) x list/tuple/one-shot iterator x blocking/non-blocking key; all "
-        "(k, max_tries) pairs with k<=7, max_tries<=6 for aretry x ending (value/unlisted exception) x blocking. "
+        "(k, max_tries) pairs with k<=7, max_tries<=6 for aretry x ending (value/unlisted exception) x blocking, with "
+        "listed/unlisted classes deriving from Exception, from a listed base class, or from BaseException only (alone, "
+        "in a mixed tuple, aretry(BaseException)). "
         "Generated: sizes 0-13 plus long inputs (257-1100 elements, for chunked issuing), elements = ints, orderable "
         "objects with equal order but distinct identity, None, unorderable objects, duplicates of the same object, "
         "equal keys, per-element blocking, call forms f(..) / f.asynq(..).value() / yielded from an outer task, "
@@ -126,9 +128,9 @@ def core_cases(maxn):
     return res
 
 
-def retry_case(max_tries, listed, script, blocking, single_cls=0, form="call"):
+def retry_case(max_tries, listed, script, blocking, single_cls=0, form="call", base_all=0):
     return {"helper": "aretry", "max": max_tries, "listed": listed, "script": script, "blocking": blocking,
-            "single_cls": single_cls, "form": form}
+            "single_cls": single_cls, "form": form, "base_all": base_all}
 
 
 def retry_core():
@@ -139,20 +141,35 @@ def retry_core():
                 for blocking in (0, 1):
                     script = [["raise", 1 if i % 2 == 0 else 2] for i in range(k)] + [ending]
                     res.append(retry_case(m, [1, 2], script, blocking))
+    # listed classes that derive from BaseException only: custom class alone, a tuple mixing both, BaseException itself;
+    # and such a class raised while NOT listed (propagates at once)
+    for m in range(1, 7):
+        for k in range(0, 8):
+            for ending in (["ret", 7], ["raise", 3], ["raise", 6]):
+                script = [["raise", 5 if i % 2 == 0 else 1] for i in range(k)] + [ending]
+                res.append(retry_case(m, [1, 5], script, k % 2))
+                res.append(retry_case(m, [5], [["raise", 5]] * k + [ending], 0, single_cls=k % 2))
+                res.append(retry_case(m, list(ALL_CLS), [["raise", 1 + (i % 6)] for i in range(k)] + [["ret", 2]],
+                                      0, single_cls=k % 2, base_all=1))
     return res
 
 
 def gen_retry(rng):
     m = rng.choice([0, 1, 1, 2, 3, 4, 5, 6, 10])
-    listed = sorted(rng.sample([1, 2, 3, 4], rng.choice([0, 1, 1, 2, 3])))
+    base_all = 1 if rng.random() < 0.08 else 0     # aretry(BaseException): every class is listed
+    if base_all:
+        listed = list(ALL_CLS)
+    else:
+        listed = sorted(rng.sample(ALL_CLS, rng.choice([0, 1, 1, 2, 3, 4])))
     n = rng.randint(0, 8)
     script = []
     for _ in range(n):
         if rng.random() < 0.75:
-            script.append(["raise", rng.choice(listed) if listed and rng.random() < 0.7 else rng.randint(1, 4)])
+            script.append(["raise", rng.choice(listed) if listed and rng.random() < 0.7 else rng.randint(1, 6)])
         else:
             script.append(["ret", rng.randint(-3, 9)])
-    return retry_case(m, listed, script, rng.randint(0, 1), single_cls=rng.randint(0, 1), form=rng.choice(FORMS[:2]))
+    return retry_case(m, listed, script, rng.randint(0, 1), single_cls=rng.randint(0, 1), form=rng.choice(FORMS),
+                      base_all=base_all)
 
 
 def gen_collection(rng, helper=None, size=None):
@@ -280,6 +297,7 @@ def neighbours(case, rng):
         for _ in range(32):
             c = gen_retry(rng)
             c["listed"] = case["listed"]
+            c["base_all"] = case.get("base_all", 0)
             yield c
         return
     for src in SRC_KINDS:
@@ -372,7 +390,16 @@ class E4(E1):
     pass
 
 
-EXC = {1: E1, 2: E2, 3: E3, 4: E4}
+class B5(BaseException):
+    """listed or not, never an Exception: `except Exception` must not be what decides about a retry"""
+
+
+class B6(BaseException):
+    pass
+
+
+EXC = {1: E1, 2: E2, 3: E3, 4: E4, 5: B5, 6: B6}
+ALL_CLS = [1, 2, 3, 4, 5, 6]
 TRUTHY = [True, 1, "x", (0,)]
 FALSY = [False, 0, None, "", ()]
 
@@ -651,7 +678,11 @@ def run_retry(case, st, HItem, call, asynq, tools, time):
         raise e
 
     listed = tuple(EXC[c] for c in case["listed"])
-    if len(listed) == 1 and case.get("single_cls"):
+    if case.get("base_all"):
+        if sorted(case["listed"]) != ALL_CLS:
+            raise ValueError("base_all needs every class listed")
+        listed = BaseException if case.get("single_cls") else (BaseException,)
+    elif len(listed) == 1 and case.get("single_cls"):
         listed = listed[0]
     sleep_arg = 0.0125
     sleeps = [0]
@@ -671,7 +702,11 @@ def run_retry(case, st, HItem, call, asynq, tools, time):
                 res = "(ok val %d)" % v
             else:
                 res = "(raised other BadResult-%s)" % type(v).__name__
-        except Exception as e:
+        except BaseException as e:
+            # the body's scripted exceptions may derive from BaseException only; anything else that is not an
+            # Exception (the worker's per-case timeout, KeyboardInterrupt) is not an observation
+            if not isinstance(e, Exception) and id(e) not in raised:
+                raise
             res = exc_res(e, raised)
     finally:
         time.sleep = real_sleep
